@@ -36,7 +36,7 @@ VARIABLE c
 Init == \E a \in ArmMin..ArmMax, b \in ArmMin..ArmMax, pat \in Patterns, sp \in SlopePairs, off8 \in Offsets8 :
           c = [a |-> a, pts |-> ElbowCurve(a, b, pat, sp[1], sp[2], off8), st |-> "new"]
 Emit1 == /\ c.st = "new"
-         /\ Emit => PrintT(ToJson([pts |-> c.pts, corner |-> c.a, mono |-> Monotone(c.pts)]))   \* corner as 0-based index
+         /\ Emit => PrintT(ToJson([pts |-> c.pts, corner |-> c.a, mono |-> WeaklyMonotone(c.pts)]))   \* corner as 0-based index
          /\ c' = [c EXCEPT !.st = "done"]
 Next == Emit1
 Spec == Init /\ [][Next]_c
@@ -44,5 +44,5 @@ Spec == Init /\ [][Next]_c
 Lemmas == IsElbow(c.pts, c.a + 1)
 \* "the difference curve of the normalised elbow peaks at the corner": Kneedle without smoothing, as defined in
 \* KneedleDefs, returns the corner on every monotone member
-KneedleLemma == Monotone(c.pts) => KneedleKnee(c.pts) = c.a
+KneedleLemma == WeaklyMonotone(c.pts) => KneedleKnee(c.pts) = c.a
 =============================================================================
